@@ -446,9 +446,12 @@ static void run_case(uint64_t seed, uint64_t idx, const char *tier, const char *
         char pn[40]; snprintf(pn, sizeof pn, "torn_in_%s", reg); probe(pn);
         if (fld == 0 && off >= 8) { int f2; png_region(file, flen, off - 1, &f2); if (f2 == 3 || off == 8) probe("torn_at_chunk_boundary"); }
         sb_reset(&sb);
-        sb_printf(&sb, "%sfsfault 0 eof_at=%zu short=%d\nop from_png 1 0\nexpect equal_or_null 0 1\n", hd.s, off, (int)rng_below(&rg, 8));
+        /* a proper prefix of a PNG file is a truncated file: the property wants it rejected (NULL or termination), not
+         * merely read safely - also when every pixel row was already delivered and only the end of the stream is missing */
+        sb_printf(&sb, "%sfsfault 0 eof_at=%zu short=%d\nop from_png 1 0\nexpect rejected 1\n", hd.s, off, (int)rng_below(&rg, 8));
         if (off == 0) eng_write_file(curpath, sb.s);
-        run_one(sb.s, 'A', errpath, &t, outdir, idx, (long)off, kind, 1);
+        if (off + 12 >= flen) probe("torn_after_last_IDAT");
+        run_one(sb.s, 'R', errpath, &t, outdir, idx, (long)off, kind, 1);
       }
       free(want);
     } else if (family == 3) {
